@@ -207,6 +207,92 @@ func extractDispatcher() {
 	}
 	l.def("orderAscendingScore", "Bool", lbool(asc), "peerRanking.Order sorts by score, lower first")
 
+	// The job offer: every select that sends on a worker's NewJob() channel
+	// (directly, or through a local that holds it), anywhere in
+	// workmanager.go, and how many of them have a default arm.  With no
+	// default the dispatcher stays with the worker it is offering the job to
+	// until that worker takes it, exits, or the work manager quits.
+	offers, offersDefault := 0, 0
+	if wmf != nil {
+		jobChans := map[string]bool{}
+		isNewJob := func(e ast.Expr) bool {
+			c, ok := e.(*ast.CallExpr)
+			if !ok {
+				return false
+			}
+			sel, ok := c.Fun.(*ast.SelectorExpr)
+			return ok && sel.Sel.Name == "NewJob" && len(c.Args) == 0
+		}
+		ast.Inspect(wmf, func(n ast.Node) bool {
+			if as, ok := n.(*ast.AssignStmt); ok && len(as.Lhs) == len(as.Rhs) {
+				for i, r := range as.Rhs {
+					if id, ok := as.Lhs[i].(*ast.Ident); ok && isNewJob(r) {
+						jobChans[id.Name] = true
+					}
+				}
+			}
+			return true
+		})
+		ast.Inspect(wmf, func(n ast.Node) bool {
+			sel, ok := n.(*ast.SelectStmt)
+			if !ok {
+				return true
+			}
+			offer, dflt := false, false
+			for _, c := range sel.Body.List {
+				cc := c.(*ast.CommClause)
+				if cc.Comm == nil {
+					dflt = true
+					continue
+				}
+				if ss, ok := cc.Comm.(*ast.SendStmt); ok {
+					if id, ok := ss.Chan.(*ast.Ident); isNewJob(ss.Chan) || (ok && jobChans[id.Name]) {
+						offer = true
+					}
+				}
+			}
+			if offer {
+				offers++
+				if dflt {
+					offersDefault++
+				}
+			}
+			return true
+		})
+	}
+	if offers == 0 {
+		fail("query/workmanager.go: no select sends a job on a worker's NewJob() channel")
+	}
+	l.def("jobOfferSelects", "Nat", strconv.Itoa(offers), "selects in workmanager.go that send a job on a worker's NewJob() channel")
+	l.def("jobOfferSelectsWithDefault", "Nat", strconv.Itoa(offersDefault), "of those, how many have a default arm (0: the offer blocks until the worker takes the job, exits, or quit)")
+	shape["jobOfferSelects"], shape["jobOfferSelectsWithDefault"] = offers, offersDefault
+
+	// The ranking never forgets an address: nothing in peer_rank.go removes
+	// an entry from the score map — no delete(...) on it, no clear(...), and
+	// the map field is only ever set where the ranking is constructed (a
+	// composite literal), never re-assigned.
+	removals := 0
+	if prf != nil {
+		ast.Inspect(prf, func(n ast.Node) bool {
+			switch v := n.(type) {
+			case *ast.CallExpr:
+				if id, ok := v.Fun.(*ast.Ident); ok && (id.Name == "delete" || id.Name == "clear") && len(v.Args) >= 1 {
+					removals++
+				}
+			case *ast.AssignStmt:
+				for _, lh := range v.Lhs {
+					// x.rank = …  (an index expression x.rank[k] = … only adds or updates)
+					if se, ok := lh.(*ast.SelectorExpr); ok && se.Sel.Name == "rank" {
+						removals++
+					}
+				}
+			}
+			return true
+		})
+	}
+	l.def("rankRemovals", "Nat", strconv.Itoa(removals), "statements in peer_rank.go that can remove entries from the score map (delete / clear / re-assignment of the map)")
+	shape["rankRemovals"] = removals
+
 	shape["verdictSends"], shape["verdictSendsFollowedByDelete"] = sends, paired
 	shape["shutdownSendsInDefer"], shape["requeueSameJob"] = deferSends, requeueSame
 	shape["errChanCapOne"], shape["queueOrderedByIndex"], shape["orderAscendingScore"] = capOne, lessIdx, asc
